@@ -18,6 +18,16 @@ func init() {
 }
 
 func c15(c *q.Ctx) {
+	// the tree is what hangs below Root: a look-up answers with a node reachable from the root or with nothing (the
+	// orphans are looked up through OrphanMap, by insertOrphan only) - markers and the committed root are moved onto
+	// what this look-up returns
+	if dq := c.Fn("kernel/consensus/base/driver/chained-bft::(*QCPendingTree).DFSQueryNode"); dq != nil {
+		c.ReturnIs(dq, 0, []string{"chained_bft.DFSQuery(p0.Root,p1)"}, "the look-up is the depth-first search from the root")
+	}
+	// every confirmed block handed over by the consensus reaches the tree, whatever its view
+	if uq := c.Fn("kernel/consensus/base/driver/chained-bft::(*Smr).UpdateQcStatus"); uq != nil {
+		c.Effect(uq, q.Eff{Spec: "QCPendingTree.updateQcStatus", Arg: 0, Glob: "p1", Req: []q.Cond{{Canon: "(nil == p1)", Sense: false}}, Exact: true, Why: "a confirmed block that is silently dropped leaves its descendants orphans for good", Rule: "K2"})
+	}
 	const bft = "kernel/consensus/base/driver/chained-bft::"
 	ctor := "kernel/consensus/base/common::InitQCTree"
 	for _, f := range []string{"Root", "HighQC", "GenericQC", "LockedQC", "CommitQC"} {
